@@ -29,10 +29,11 @@ structure Cfg where
   wideNeg     : Bool   -- 04: `-index` is computed in 64 bits
   subLen      : Bool   -- 05: window-size sub-negotiation needs 4 payload bytes
   findSend    : Bool   -- 06: `send/endSession` use `find`, not `map::at`
+  cancelExit  : Bool   -- 07: `~Terminal` cancels the exit tasks that are still queued
 deriving DecidableEq, Repr
 
-def Cfg.fixed : Cfg := ⟨true, true, true, true, true, true⟩
-def Cfg.legacy : Cfg := ⟨false, false, false, false, false, false⟩
+def Cfg.fixed : Cfg := ⟨true, true, true, true, true, true, true⟩
+def Cfg.legacy : Cfg := ⟨false, false, false, false, false, false, false⟩
 
 /-! ## strings -/
 
@@ -184,12 +185,16 @@ deriving DecidableEq, Repr
 /-- what the telnet / raw-TCP front end hands to the terminal -/
 inductive TEv
   | str (bs : Str) | setopt (o : Nat) | win (w h : Nat)
+  | reply (bs : Str)        -- bytes the front end itself answers with (WONT x, NOP)
 deriving DecidableEq, Repr
 
 inductive Ev
   | tx (k : TxKind) (bs : Str)            -- bytes sent to the client
   | probe (id : Nat) (args : List Str)    -- a command node was called with these arguments
   | endSess                               -- Connection::endSession
+  | closed                                -- TcpServer::disconnect of the session's client
+  | slot (k : Nat)                        -- what follows concerns session slot k (8 = the op itself)
+  | split (r : Option (List Str))         -- result of a direct SplitCmdline call
   | bad (b : Bad)                         -- crash / uncaught exception / invalid access
   | tel (e : TEv)
   | line (s : String)                     -- return values etc.
@@ -585,8 +590,9 @@ def telStep (cfg : Cfg) (opts : Nat) (buf : Str) : Option (List Ev × Nat × Nat
       if 251 ≤ cmd ∧ cmd ≤ 254 then                                 -- WILL / WONT / DO / DONT
         if buf.length < 3 then none
         else
-          -- DO ECHO switches the echo option on; DONT is answered (not observable here)
+          -- DO ECHO switches the echo option on; DONT x is answered WONT x
           if cmd = 253 ∧ buf.getD 2 0 = 1 then some ([.tel (.setopt (opts ||| 1))], opts ||| 1, 3)
+          else if cmd = 254 then some ([.tel (.reply [255, 252, buf.getD 2 0])], opts, 3)
           else some ([], opts, 3)
       else if cmd = 250 then                                        -- SB ... IAC x
         if buf.length < 6 then none
@@ -597,6 +603,7 @@ def telStep (cfg : Cfg) (opts : Nat) (buf : Str) : Option (List Ev × Nat × Nat
             let p := k + 4                       -- position of the closing IAC
             if p + 1 = buf.length then none
             else some ((if buf.getD 2 0 = 31 then subWindow cfg buf (p - 3) else []), opts, p + 2)
+      else if cmd = 241 then some ([.tel (.reply [255, 241])], opts, 2)   -- NOP is answered NOP
       else some ([], opts, 2)                                       -- any other command: two bytes
 
 /-- the loop; returns the events, the option word and the unconsumed rest. `fuel` ≥ buffer
@@ -653,100 +660,246 @@ def frontStep (cfg : Cfg) (isTel : Bool) (f : FrontSt) : FrontOp → Option (Fro
       (if cfg.findSend then some (f, [.line "ret=00 valid=0"]) else some (f, [.bad .mapAt]))
     else none
 
-/-! ## the world the op files act on -/
+/-! ## the world the op files act on
+
+One `Terminal` (one node tree) with eight session slots: 0-3 sessions on a recording connection,
+4 and 5 two clients of one `Telnetd`, 6 a client of `TcpRpc`, 7 the `Stdio` service.  A slot's `gen`
+counts the sessions it has had: a queued exit task names (slot, gen) — the session *token* — so a
+task left over from an earlier session of the slot cannot touch a later one. -/
+
+structure Slot where
+  fstate : Nat := 0         -- 0 never attached, 1 attached, 2 detached (ended / token reset), 3 stopped
+  gen : Nat := 0
+  sess : Option St := none  -- the live SessionContext, if any
+  pending : Str := []       -- telnet: received but not yet consumed bytes
+deriving DecidableEq, Repr
+
+inductive Kind | direct | tel | rpc | stdio
+deriving DecidableEq, Repr
+
+def nSlots : Nat := 8
+def kindOf (k : Nat) : Kind := if k < 4 then .direct else if k < 6 then .tel else if k = 6 then .rpc else .stdio
 
 structure World where
   nodes : Nodes := [some (.dir [])]
-  opened : Bool := false
-  sess : Option St := none
-  exits : Nat := 0              -- exit tasks waiting in the loop's run-next queue
-  tel : FrontSt := {}
+  slots : List Slot := List.replicate nSlots {}
+  cur : Nat := 0                      -- the selected direct slot
+  exits : List (Nat × Nat) := []      -- exit tasks waiting in the loop's run-next queue: (slot, gen)
+  tel : FrontSt := {}                 -- world B
   rpc : FrontSt := {}
 deriving DecidableEq, Repr
 
+def World.slot (w : World) (k : Nat) : Slot := w.slots.getD k {}
+def World.setSlot (w : World) (k : Nat) (x : Slot) : World := { w with slots := w.slots.set k x }
+
 inductive Op
-  | openS (o : Nat) | recv (bs : Str) | pass | opt (n : Nat) | winsz (w h : Nat) | close
+  | sel (k : Nat) | openS (o : Nat) | recv (bs : Str) | pass | teardown | opt (n : Nat) | winsz (w h : Nat) | close
+  | xconn (k : Nat) | xrecv (k : Nat) (bs : Str) | xdisc (k : Nat)
+  | sstart | srecv (bs : Str) | sstop
   | mkdir | mkfunc | mount (p c : Nat) (name : Str) | umount (p : Nat) (name : Str) | rmnode (i : Nat)
+  | split (bs : Str)
   | front (isTel : Bool) (f : FrontOp)
 deriving DecidableEq, Repr
 
 def maxNodes : Nat := 16
 
-/-- the queued exit tasks run (one loop pass) -/
-def runExits (cfg : Cfg) : Nat → Option St → Option St × List Ev
-  | 0, s => (s, [])
-  | n + 1, some _ =>
-    let r := runExits cfg n none
-    (r.1, .endSess :: r.2)
-  | n + 1, none =>
-    if cfg.exitByToken then runExits cfg n none
-    else (none, [.bad .useAfterFree])      -- `s->wp_conn` of a freed, pooled SessionContext
+/-- is the session an exit task was queued for still there? -/
+def Slot.has (x : Slot) (g : Nat) : Bool := x.gen = g && x.sess.isSome
+
+/-- an exit task finds its session: `endSession` on the session's connection, then `deleteSession` -/
+def exitSlot (k : Nat) (x : Slot) : Slot × List Ev :=
+  match kindOf k with
+  | .direct => ({ x with sess := none }, [.slot k, .endSess])
+  | .tel => ({ x with sess := none, fstate := 2, pending := [] }, [.slot k, .closed])
+  | .rpc => ({ x with sess := none, fstate := 2, pending := [] }, [.slot k, .closed])
+  | .stdio => ({ x with sess := none, fstate := 2 }, [])
+
+/-- the queued exit tasks run, in order (one drained loop pass) -/
+def runExits (cfg : Cfg) : List (Nat × Nat) → List Slot → List Slot × List Ev
+  | [], sl => (sl, [])
+  | (k, g) :: rest, sl =>
+    let x := sl.getD k {}
+    if x.has g then
+      let r := runExits cfg rest (sl.set k (exitSlot k x).1)
+      (r.1, (exitSlot k x).2 ++ r.2)
+    else if cfg.exitByToken then runExits cfg rest sl
+    else (sl, [.bad .useAfterFree])      -- `s->wp_conn` of a freed, pooled SessionContext
 
 def countSched (evs : List Ev) : Nat := (evs.filter (· = .sched)).length
 
-def retLine (b : Bool) : Ev := .line (if b then "ret=1" else "ret=0")
+def opLine (s : String) : List Ev := [.slot nSlots, .line s]
+def retLine (b : Bool) : List Ev := opLine (if b then "ret=1" else "ret=0")
+
+/-- what `onBegin` sends -/
+def beginEvs (s : St) : List Ev :=
+  if s.quiet then [] else [.tx .out (welcome ++ typeHelp), .tx .prompt prompt]
+
+/-- the five negotiations `Telnetd` opens with -/
+def telnetHello : Str := [255, 254, 1, 255, 253, 31, 255, 253, 32, 255, 251, 1, 255, 251, 3]
+
+/-- what the telnet framing loop produced is handed to the terminal session, in order -/
+def applyTel (cfg : Cfg) (ns : Nodes) : Option St → List Ev → Option St × List Ev
+  | s, [] => (s, [])
+  | s, .tel (.str d) :: r =>
+    (match s with
+     | some st =>
+       let x := recvString cfg ns st d
+       let y := applyTel cfg ns (some x.1) r
+       (y.1, x.2 ++ y.2)
+     | none => applyTel cfg ns none r)
+  | s, .tel (.setopt o) :: r => applyTel cfg ns (s.map fun st => { st with opts := o }) r
+  | s, .tel (.win _ _) :: r => applyTel cfg ns s r
+  | s, .tel (.reply bs) :: r =>
+    let y := applyTel cfg ns s r
+    (y.1, .tx .out bs :: y.2)
+  | s, e :: r =>
+    let y := applyTel cfg ns s r
+    (y.1, e :: y.2)
+
+/-- a drained loop pass: all queued exit tasks run -/
+def doPass (cfg : Cfg) (w : World) : World × List Ev :=
+  let r := runExits cfg w.exits w.slots
+  ({ w with slots := r.1, exits := [] }, r.2)
+
+/-- bytes for the session of slot `k` (already framed); queues the exit tasks it schedules -/
+def deliver (cfg : Cfg) (w : World) (k : Nat) (bs : Str) : World × List Ev :=
+  let x := w.slot k
+  match x.sess with
+  | none => (w, [])
+  | some s =>
+    let r := recvString cfg w.nodes s bs
+    ({ w.setSlot k { x with sess := some r.1 } with exits := w.exits ++ List.replicate (countSched r.2) (k, x.gen) },
+     .slot k :: r.2)
 
 /-- one op; `none` = `bad-op` -/
 def step (cfg : Cfg) (w : World) : Op → Option (World × List Ev)
+  | .sel k => if k < 4 then some ({ w with cur := k }, opLine "sel") else none
   | .openS o =>
-    if o < 4 ∧ !w.opened then
+    let x := w.slot w.cur
+    if o < 4 ∧ x.fstate = 0 then
       let s : St := { opts := o }
-      let evs : List Ev := (if s.quiet then [] else [.tx .out (welcome ++ typeHelp), .tx .prompt prompt])
-      some ({ w with opened := true, sess := some s }, evs ++ [retLine true])
+      some (w.setSlot w.cur { x with fstate := 1, gen := x.gen + 1, sess := some s },
+            .slot w.cur :: beginEvs s ++ retLine true)
     else none
   | .recv bs =>
-    if w.opened then
-      match w.sess with
-      | none => some (w, [retLine false])
-      | some s =>
-        let r := recvString cfg w.nodes s bs
-        some ({ w with sess := some r.1, exits := w.exits + countSched r.2 }, r.2 ++ [retLine true])
+    let x := w.slot w.cur
+    if x.fstate ≠ 0 then
+      match x.sess with
+      | none => some (w, retLine false)
+      | some _ =>
+        let r := deliver cfg w w.cur bs
+        some (r.1, r.2 ++ retLine true)
     else none
   | .pass =>
-    let r := runExits cfg w.exits w.sess
-    some ({ w with sess := r.1, exits := 0 }, r.2 ++ [.line "pass"])
+    let r := doPass cfg w
+    some (r.1, r.2 ++ opLine "pass")
+  | .teardown =>
+    -- services, Terminal, then the Loop are destroyed without draining: the Loop's cleanup runs what is
+    -- still queued — an exit task of the destroyed Terminal, unless its destructor cancelled it
+    let evs : List Ev := if w.exits ≠ [] ∧ !cfg.cancelExit then [.bad .useAfterFree] else []
+    some ({ tel := w.tel, rpc := w.rpc }, evs ++ opLine "teardown")
   | .opt n =>
-    if n < 4 ∧ w.opened then
-      match w.sess with
-      | none => some (w, [.line "opt=0"])
-      | some s => some ({ w with sess := some { s with opts := n } }, [.line ("opt=" ++ toString n)])
+    let x := w.slot w.cur
+    if n < 4 ∧ x.fstate ≠ 0 then
+      match x.sess with
+      | none => some (w, opLine "opt=0")
+      | some s => some (w.setSlot w.cur { x with sess := some { s with opts := n } }, opLine ("opt=" ++ toString n))
     else none
   | .winsz a b =>
-    if a < 65536 ∧ b < 65536 ∧ w.opened then some (w, [retLine w.sess.isSome]) else none
+    if a < 65536 ∧ b < 65536 ∧ (w.slot w.cur).fstate ≠ 0 then some (w, retLine (w.slot w.cur).sess.isSome) else none
   | .close =>
-    if w.opened then some ({ w with sess := none }, [retLine w.sess.isSome]) else none
+    let x := w.slot w.cur
+    if x.fstate ≠ 0 then some (w.setSlot w.cur { x with sess := none }, retLine x.sess.isSome) else none
+  | .xconn k =>
+    let x := w.slot k
+    if 4 ≤ k ∧ k < 7 ∧ x.fstate ≠ 1 then
+      let s : St := { opts := if k = 6 then 2 else 0 }
+      let hello : List Ev := if k = 6 then [] else [.tx .out telnetHello]
+      some (w.setSlot k { fstate := 1, gen := x.gen + 1, sess := some s, pending := [] },
+            .slot k :: hello ++ beginEvs s ++ opLine "conn")
+    else none
+  | .xrecv k bs =>
+    let x := w.slot k
+    if 4 ≤ k ∧ k < 7 ∧ x.fstate = 1 then
+      if k = 6 then
+        let buf := x.pending ++ bs
+        if buf = [] then some (w, opLine "rest=0")
+        else
+          let r := deliver cfg w 6 buf
+          some (r.1, r.2 ++ opLine "rest=0")
+      else
+        let opts0 := match x.sess with | some s => s.opts | none => 0
+        let f := telFeed cfg opts0 x.pending bs
+        let a := applyTel cfg w.nodes x.sess f.1
+        some ({ w.setSlot k { x with sess := a.1, pending := f.2.2 } with
+                exits := w.exits ++ List.replicate (countSched a.2) (k, x.gen) },
+              .slot k :: a.2 ++ opLine ("rest=" ++ toString f.2.2.length))
+    else none
+  | .xdisc k =>
+    let x := w.slot k
+    if 4 ≤ k ∧ k < 7 ∧ x.fstate = 1 then
+      some (w.setSlot k { x with fstate := 2, sess := none, pending := [] }, opLine "disc")
+    else none
+  | .sstart =>
+    let x := w.slot 7
+    if x.fstate = 0 then
+      let s : St := { opts := 1 }
+      let w1 := w.setSlot 7 { x with fstate := 1, gen := x.gen + 1, sess := some s }
+      let r := doPass cfg w1
+      some (r.1, .slot 7 :: beginEvs s ++ r.2 ++ retLine true)
+    else none
+  | .srecv bs =>
+    let x := w.slot 7
+    if (x.fstate = 1 ∨ x.fstate = 2) ∧ bs.length ≤ 512 then
+      -- no bytes: no read event; token reset (after an exit): any input starts a new session and is dropped
+      let r1 : World × List Ev :=
+        if bs = [] then (w, [])
+        else if x.fstate = 1 then deliver cfg w 7 bs
+        else
+          let s : St := { opts := 1 }
+          (w.setSlot 7 { x with fstate := 1, gen := x.gen + 1, sess := some s }, .slot 7 :: beginEvs s)
+      let r2 := doPass cfg r1.1
+      some (r2.1, r1.2 ++ r2.2 ++ opLine "srecv")
+    else none
+  | .sstop =>
+    let x := w.slot 7
+    if x.fstate = 1 ∨ x.fstate = 2 then
+      let r := doPass cfg (w.setSlot 7 { x with fstate := 3, sess := none })
+      some (r.1, r.2 ++ opLine "sstop")
+    else none
   | .mkdir =>
     if w.nodes.length < maxNodes then
-      some ({ w with nodes := w.nodes ++ [some (.dir [])] }, [.line ("node=" ++ toString w.nodes.length)])
+      some ({ w with nodes := w.nodes ++ [some (.dir [])] }, opLine ("node=" ++ toString w.nodes.length))
     else none
   | .mkfunc =>
     if w.nodes.length < maxNodes then
-      some ({ w with nodes := w.nodes ++ [some .func] }, [.line ("node=" ++ toString w.nodes.length)])
+      some ({ w with nodes := w.nodes ++ [some .func] }, opLine ("node=" ++ toString w.nodes.length))
     else none
   | .mount p c name =>
     if p < w.nodes.length ∧ c < w.nodes.length then
       match nodeAt w.nodes p, nodeAt w.nodes c with
       | some (.dir ch), some _ =>
-        if name = [] ∨ name.head? = some 33 then some (w, [retLine false])
-        else if (ch.lookup name).isSome then some (w, [retLine false])
-        else some ({ w with nodes := w.nodes.set p (some (.dir (insertSorted name c ch))) }, [retLine true])
-      | _, _ => some (w, [retLine false])
+        if name = [] ∨ name.head? = some 33 then some (w, retLine false)
+        else if (ch.lookup name).isSome then some (w, retLine false)
+        else some ({ w with nodes := w.nodes.set p (some (.dir (insertSorted name c ch))) }, retLine true)
+      | _, _ => some (w, retLine false)
     else none
   | .umount p name =>
     if p < w.nodes.length then
       match nodeAt w.nodes p with
       | some (.dir ch) =>
         if (ch.lookup name).isSome then
-          some ({ w with nodes := w.nodes.set p (some (.dir (ch.filter (fun c => c.1 ≠ name)))) }, [retLine true])
-        else some (w, [retLine false])
-      | _ => some (w, [retLine false])
+          some ({ w with nodes := w.nodes.set p (some (.dir (ch.filter (fun c => c.1 ≠ name)))) }, retLine true)
+        else some (w, retLine false)
+      | _ => some (w, retLine false)
     else none
   | .rmnode i =>
     if i < w.nodes.length ∧ i ≠ 0 then
       match nodeAt w.nodes i with
-      | some _ => some ({ w with nodes := w.nodes.set i none }, [retLine true])
-      | none => some (w, [retLine false])
+      | some _ => some ({ w with nodes := w.nodes.set i none }, retLine true)
+      | none => some (w, retLine false)
     else none
+  | .split bs => some (w, [.split (splitCmdline bs)])
   | .front isTel f =>
     if isTel then (frontStep cfg true w.tel f).map (fun r => ({ w with tel := r.1 }, r.2))
     else (frontStep cfg false w.rpc f).map (fun r => ({ w with rpc := r.1 }, r.2))
